@@ -37,7 +37,11 @@ TrLabel ==
        /\ label' = e.label /\ consulted' = e.consulted /\ err' = e.err
        /\ LET misuse == e.entry = "FromIP" /\ e.cls = "nilip" /\ e.db = "disabled"
               want == Label(e.cls, e.db)
-              zonedOK == e.cls = "zoned" /\ e.label \in {"XA", "XL"} /\ (zoned = "" \/ zoned = e.label)
+              \* a zoned literal: reading "A" (cannot be parsed: XA whatever the database) or reading "B" (a non-global
+              \* address: "" when disabled, else XL) - but the same reading for every zoned address of the run
+              cand == (IF e.label = "XA" THEN {"A"} ELSE {}) \cup
+                      (IF e.label = (IF e.db = "disabled" THEN "" ELSE "XL") THEN {"B"} ELSE {})
+              zonedOK == e.cls = "zoned" /\ cand # {} /\ (zoned = "" \/ zoned \in cand)
               pv == IF e.consulted /\ ~MayConsult(e.cls, e.db) THEN "db-consulted-for-nonglobal-or-disabled"
                     ELSE IF misuse THEN ""
                     ELSE IF e.cls = "zoned" THEN (IF zonedOK THEN "" ELSE "zoned-inconsistent")
@@ -47,7 +51,7 @@ TrLabel ==
                     \/ (MayConsult(e.cls, e.db) /\ ~e.consulted) IN
             /\ viols'  = IF pv # "" THEN Append(viols, [line |-> l, kind |-> pv]) ELSE viols
             /\ drifts' = IF dr THEN Append(drifts, l) ELSE drifts
-            /\ zoned'  = IF e.cls = "zoned" /\ zoned = "" THEN e.label ELSE zoned
+            /\ zoned'  = IF e.cls = "zoned" /\ zoned = "" /\ cand # {} THEN CHOOSE x \in cand : TRUE ELSE zoned
 
 TraceSpec == TraceInit /\ [][TrLabel]_<<vars, tvars>>
 Report == (l = Len(Trace) + 1) =>
